@@ -334,6 +334,23 @@ func errKind(err error) string {
 	return "internal"
 }
 
+// engineTags names the schedule- or strategy-dependent engine defects (F1, F9, F10) whose shape is
+// present for this request. Two runs of the same request can then legitimately differ for reasons
+// that have nothing to do with the feature under test (a cache, a consistency flag, ...).
+func (e *Env) engineTags(st *rm.State, rq gen.Request) string {
+	switch {
+	case rq.Kind != "" && rq.Kind != "check":
+		return ""
+	case st.DiffSubtrahendReachesCycle(rq.Obj, rq.Rel):
+		return " diff_subtrahend_reaches_tuple_cycle"
+	case st.ShadowedSibling(rq.User, rq.Ctx):
+		return " unsatisfied_conditional_tuple_shadows_sibling_of_same_object"
+	case st.SwallowedBySibling(rq.Ctx, st.Unevaluable(rq.Ctx)):
+		return " condition_error_has_satisfied_sibling"
+	}
+	return ""
+}
+
 // grantTags: the known "loses a tuple" defects (F1, F10) turn into wrongly GRANTED access when the
 // lost membership sits under an exclusion's subtrahend.
 func (e *Env) grantTags(st *rm.State, rq gen.Request) string {
